@@ -89,6 +89,19 @@ def probe_matrix(rng, ndim, kind=None):
     return A
 
 
+def declared_shape(shape, with_shape):
+    """the array shape the WCS declares for itself: the data's (True), none (False), or a frame that differs from
+    the data the cube holds ("larger" / "smaller" — what reproject_to(target, shape_out=...) leaves behind when the
+    target declares its own frame: the cube's data, not the WCS's declared frame, is what the cube's methods describe)"""
+    if not with_shape:
+        return None
+    if with_shape == "larger":
+        return tuple(int(s) + 2 + i for i, s in enumerate(shape))
+    if with_shape == "smaller":
+        return tuple(max(1, int(s) // 2) for s in shape)
+    return tuple(int(s) for s in shape)
+
+
 def make_probe(rng, shape, with_shape=True, kind=None, extra_world=False, drop_world=False):
     ndim = len(shape)
     A = probe_matrix(rng, ndim, kind)
@@ -99,7 +112,7 @@ def make_probe(rng, shape, with_shape=True, kind=None, extra_world=False, drop_w
     elif drop_world and ndim >= 2:
         # fewer world than pixel axes: one world value that depends on two pixel axes
         A = A[:-1].copy(); A[-1, -1] = 1; b = b[:-1]
-    return ProbeWCS(A, b, shape=tuple(shape) if with_shape else None)
+    return ProbeWCS(A, b, shape=declared_shape(shape, with_shape))
 
 
 FITS_LIN = [("WAVE", "Angstrom", 0.2, 10.0, "wave"), ("TIME", "s", 0.5, 0.0, "time"),
@@ -139,7 +152,7 @@ def make_fits(rng, shape, family="fits_sep", with_shape=True):
         w.wcs.pc = pc
     w.wcs.set()
     if with_shape:
-        w.array_shape = tuple(shape)
+        w.array_shape = declared_shape(shape, with_shape)
     return w
 
 
